@@ -243,6 +243,8 @@ func TestVerifC10DecodeReplay(t *testing.T) {
 
 def main(chk):
     ir = chk.load_ir()
+    from symx import selfcheck
+    selfcheck.obligation(chk, {'regexp', 'net'}, ir)      # the SSH key pattern (regexp -> z3) and the address-block decoder: encoding vs native build
     chk.assumptions = ['key parsers (ssh.ParseAuthorizedKey, x509.ParsePKIXPublicKey, pem.Decode) are uninterpreted; byte-level robustness of third-party parsers is outside the claim',
                        'curves the parsers can yield: P-224/256/384/521', 'encoding/asn1 BitString invariant len(Bytes) = ceil(BitLength/8)']
     chk.bounds = {'rsa_bits': '0..16384', 'exponent': 'all int', 'BitLength': '0..64'}
